@@ -539,6 +539,10 @@ func (m *Manager) PruneBlocks(height uint64) {
 	m.mu.Lock()
 	defer m.mu.Unlock()
 
+	// nothing exists above the tip
+	if tipHeight := m.tipState.Index.Height; height > tipHeight {
+		height = tipHeight + 1
+	}
 	for h := height; h > 0; h-- {
 		index, ok := m.store.BestIndex(h - 1)
 		if !ok {
